@@ -30,6 +30,7 @@ VARIANTS = {
     "asan": ["-fsanitize=address,undefined", "-fno-sanitize=alignment", "-fno-sanitize-recover=undefined"],
     "tsan": ["-fsanitize=thread"],
     "sched": [],          # threadpool.c under the deterministic scheduler
+    "schedasan": ["-fsanitize=address,undefined", "-fno-sanitize=alignment", "-fno-sanitize-recover=undefined"],   # the same, with ASan
     "tools": [],          # no seams, no hook: the command line tools as shipped
 }
 LIBS = ["-lz", "-lsnappy", "-llz4", "-lzstd", "-lpthread", "-ldl"]
@@ -105,7 +106,7 @@ def build(variant, repo=None):
         fl = list(flags)
         if variant == "tools":
             fl = [x for x in fl if x != "-DMTBL_VERIF"]
-        if variant == "sched" and s == "mtbl/threadpool.c":
+        if variant in ("sched", "schedasan") and s == "mtbl/threadpool.c":
             extra += ["-include", os.path.join(HARNESS, "vs_sched.h")]
         jobs.append(["gcc", "-c"] + fl + inc + extra + [os.path.join(repo, s), "-o", o])
     with ThreadPoolExecutor(max_workers=16) as ex:
@@ -123,7 +124,7 @@ def build(variant, repo=None):
     else:
         drv_src = [os.path.join(HARNESS, "mtbl_drv.c")]
         extra = []
-        if variant == "sched":
+        if variant in ("sched", "schedasan"):
             drv_src.append(os.path.join(HARNESS, "vs_sched.c"))
             extra = ["-DVS_SCHED"]
         _run(["gcc"] + flags + inc + extra + drv_src + [res["lib"], "-o", res["drv"]] + ld)
